@@ -36,6 +36,9 @@ Lits == <<
   [src |-> "@empty", t |-> "str",   v |-> ""],
   [src |-> "@s",     t |-> "str",   v |-> "s"],
   [src |-> "@its",   t |-> "str",   v |-> "it's"],
+  [src |-> "@dqboth", t |-> "str",  v |-> "\"quoted\""],
+  [src |-> "@dqend", t |-> "str",   v |-> "say \"hi\""],
+  [src |-> "@bsl",   t |-> "str",   v |-> "a\\b"],
   [src |-> "True",   t |-> "bool",  v |-> "true"],
   [src |-> "False",  t |-> "bool",  v |-> "false"],
   [src |-> "None",   t |-> "none",  v |-> "null"] >>
